@@ -320,8 +320,28 @@ def main(prop, tier='quick', seed=0, replay=None, only=None, jobs=None):
                 results[name]['verdict'] = 'inconclusive'
                 results[name]['msg'] = 'vacuity twin not refuted: ' + t['msg']
 
+    # ---- 3b. extra solver queries supplied by the harness (E3: AST -> SMT on integer kernels) ---------
+    extra_cex = []
+    if hasattr(h, 'extra_queries') and not only:
+        try:
+            for rec in h.extra_queries(tier):
+                r = dict(verdict=rec['verdict'], msg=rec.get('msg', ''), args=rec.get('args'), wall_s=rec.get('wall_s', 0.0),
+                         paths=rec.get('paths', 0), smt_forks=rec.get('paths', 0), extra=True, bounds=rec.get('bounds', ''))
+                results[rec['cond']] = r
+                if rec['verdict'] == 'counterexample':
+                    bad, detail = h.extra_replay(rec)
+                    if bad:
+                        extra_cex.append(dict(cond=rec['cond'], args=rec['args'], got=detail, exp='same positions as the key, ascending step', source='solver-e3', reproduced=True))
+                    else:
+                        r['verdict'] = 'inconclusive'
+                        r['msg'] = 'spurious counterexample (does not reproduce on the real function): ' + r['msg']
+        except Exception as ex:  # noqa: BLE001
+            print('HARNESS-ERROR extra queries failed:', repr(ex)[:300])
+            write_evidence(prop, tier, seed, h, conds, results, [], twins, traces_ok, time.time() - t_start, harness_errors=['extra queries: ' + repr(ex)[:300]])
+            return EXIT_HARNESS_ERROR
+
     # ---- 5. replay counterexamples on the real library -----------------------------------------
-    cex = [dict(cond=n, args=r['args'], source='solver') for n, r in results.items() if r['verdict'] == 'counterexample']
+    cex = [dict(cond=n, args=r['args'], source='solver') for n, r in results.items() if r['verdict'] == 'counterexample' and not r.get('extra')]
     replayed = []
     if cex:
         rr2 = run_child('real', prop, [dict(cond=x['cond'], args=x['args']) for x in cex])['results']
@@ -332,7 +352,7 @@ def main(prop, tier='quick', seed=0, replay=None, only=None, jobs=None):
             if not bad:
                 results[x['cond']]['verdict'] = 'inconclusive'
                 results[x['cond']]['msg'] = 'spurious counterexample (does not reproduce on real NumPy): ' + results[x['cond']]['msg']
-    violations = [x for x in replayed if x['reproduced']] + trace_violations
+    violations = [x for x in replayed if x['reproduced']] + extra_cex + trace_violations
     exit_code = 0
     reported = []
     seen_known = {}
@@ -395,7 +415,9 @@ def write_evidence(prop, tier, seed, h, conds, results, violations, twins, trace
             functions_encoded=functions,
             per_query=[dict(cond=c.name, bounds=c.bounds, route=c.route, verdict=results.get(c.name, {}).get('verdict'),
                 paths=results.get(c.name, {}).get('paths'), smt_forks=results.get(c.name, {}).get('smt_forks'),
-                wall_s=results.get(c.name, {}).get('wall_s')) for c in conds],
+                wall_s=results.get(c.name, {}).get('wall_s')) for c in conds] + [
+                dict(cond=n, bounds=r.get('bounds'), route='AST -> SMT (vf/e3.py), z3 API and z3 4.8.12 binary', verdict=r['verdict'], paths=r.get('paths'))
+                for n, r in results.items() if r.get('extra')],
             solver_time_s=round(sum(r.get('wall_s', 0) for r in results.values()), 1),
             explanation=('states = execution paths of the real static-frame code explored symbolically by CrossHair '
                 '(counted at harness-body entry); transitions = SMT fork decisions (z3 queries) taken on those paths; '
